@@ -1,6 +1,6 @@
 CONSTANTS
   Defects = {"ma_pathlike"}
-  Family = "cache"
+  Family = "cache_small"
   Deep = FALSE
 INIT Init
 NEXT Next
